@@ -15,7 +15,7 @@ BOUNDS = {
     # attrs: node bound for forests in which one element at a time carries each attribute set
     # bodies: node bound for the pass with the alternative comment / CDATA / PI / script / style / text bodies
     'quick': dict(plain=3, small=0, attrs=2, bodies=3),
-    'thorough': dict(plain=4, small=5, attrs=3, bodies=3),
+    'thorough': dict(plain=4, small=0, attrs=3, bodies=3),
 }
 NSH = 64
 
